@@ -6,6 +6,10 @@ from hdlc_common import fcs16, FLAG, ESC
 
 
 def parse_frame(r: str):
+    if r.startswith("UNSTABLE(") and r.endswith(")"):
+        # the two accessor passes disagreed: judge the pass that claims validity (the claim a user could act on)
+        a, b = r[len("UNSTABLE("):-1].split("|", 1)
+        r = a if a.split(":")[1] == "1" else b
     p = r.split(":")
     def opt(x):
         return None if x == "N" else int(x)
